@@ -454,3 +454,73 @@ Definition pc_fin (p : pcC) : bool := match p with SFin => true | _ => false end
 Definition quiescent (s : st) : bool := p0_fin (p0 s) && pa_fin (pa s) && pc_fin (pc s).
 
 End TypeEraseNext.
+
+(* ------------------------------------------------------------------------------------------ *)
+(* The core election alone, generalised to n concurrent stop callbacks (the code has one per
+   next-op; the proof of Proto/TypeEraseNextProofs.v section Elect is by a hand-written
+   invariant, for every n and every schedule).  refCount_ starts at 1; the source's completion
+   calls complete (fetch_sub, old = 1: deliver); a callback does fetch_add, returns when it read 0
+   (left holding nothing, the count stays incremented), otherwise forwards the stop request and
+   calls complete.  thread 0 = the source's completion, thread i+1 = callback i.              *)
+Module TypeEraseElect.
+
+Inductive cpc := CIdle | CHold | CFin.
+
+Record st := {
+  rc : nat;               (* refCount_ *)
+  src_done : bool;        (* the source's completion called complete *)
+  cbs : list cpc;
+  bailed : nat;           (* ghost: callbacks whose fetch_add read 0 *)
+  deliveries : nat        (* ghost: how many callers of complete read 1 *)
+}.
+
+Inductive ev := EAdd (old : nat) | ESub (old : nat) | EDeliver.
+
+Definition init (n : nat) : st :=
+  {| rc := 1; src_done := false; cbs := repeat CIdle n; bailed := 0; deliveries := 0 |}.
+
+Fixpoint set_nth {A} (i : nat) (x : A) (l : list A) : list A :=
+  match l, i with
+  | [], _ => []
+  | _ :: r, O => x :: r
+  | y :: r, S i' => y :: set_nth i' x r
+  end.
+
+(* next_op_base::complete, :110-112 *)
+Definition complete (s : st) : nat * nat * list ev :=
+  let old := rc s in
+  (pred old, (if old =? 1 then S (deliveries s) else deliveries s),
+   if old =? 1 then [ESub old; EDeliver] else [ESub old]).
+
+Definition step (t : nat) (s : st) : option (st * list ev) :=
+  match t with
+  | O =>
+      if src_done s then None
+      else let '(r, d, evs) := complete s in
+           Some ({| rc := r; src_done := true; cbs := cbs s; bailed := bailed s; deliveries := d |}, evs)
+  | S i =>
+      match nth_error (cbs s) i with
+      | Some CIdle =>
+          (* request_stop, :399 *)
+          let old := rc s in
+          if old =? 0 then
+            Some ({| rc := S old; src_done := src_done s; cbs := set_nth i CFin (cbs s);
+                     bailed := S (bailed s); deliveries := deliveries s |}, [EAdd old])
+          else
+            Some ({| rc := S old; src_done := src_done s; cbs := set_nth i CHold (cbs s);
+                     bailed := bailed s; deliveries := deliveries s |}, [EAdd old])
+      | Some CHold =>
+          (* stopSource_.request_stop is thread-private here ; receiver_.set_done: complete, :406 *)
+          let '(r, d, evs) := complete s in
+          Some ({| rc := r; src_done := src_done s; cbs := set_nth i CFin (cbs s);
+                   bailed := bailed s; deliveries := d |}, evs)
+      | _ => None
+      end
+  end.
+
+Definition is_hold (c : cpc) : bool := match c with CHold => true | _ => false end.
+Definition is_fin (c : cpc) : bool := match c with CFin => true | _ => false end.
+Definition holders (s : st) : nat := length (filter is_hold (cbs s)).
+Definition quiescent (s : st) : bool := src_done s && forallb is_fin (cbs s).
+
+End TypeEraseElect.
